@@ -2,7 +2,7 @@ import re
 
 from . import operator, xlerrors, func_xltypes
 
-CRITERIA_REGEX = r'(\W*)(.*)'
+CRITERIA_REGEX = r'(<=|>=|<>|<|>|=)?(.*)'
 
 CRITERIA_OPERATORS = {
     '<': operator.OP_LT,
@@ -18,7 +18,7 @@ def parse_criteria(criteria):
 
     if isinstance(criteria, (str, func_xltypes.Text)):
         search = re.search(CRITERIA_REGEX, str(criteria)).group
-        str_operator, str_value = search(1), search(2)
+        str_operator, str_value = search(1) or '', search(2)
 
         operator = CRITERIA_OPERATORS.get(str_operator)
         if operator is None:
@@ -38,7 +38,15 @@ def parse_criteria(criteria):
             else:
                 break
 
+        ordering = str_operator in ('<', '<=', '>', '>=')
+
         def check(probe):
+            if ordering:
+                probe = func_xltypes.ExcelType.cast_from_native(probe)
+                same = func_xltypes.ExcelType.cast_from_native(value)
+                if (probe.sort_precedence, isinstance(probe, func_xltypes.Blank)) != \
+                        (same.sort_precedence, False):
+                    return False
             return operator(probe, value)
 
         return check
